@@ -1129,6 +1129,17 @@ func (r *Run) DoDisk(d *DiskOp) {
 	dir := filepath.Join(r.W.Proj, ".ergo")
 	lp := r.logPath()
 	switch d.Kind {
+	case "inflate", "merge_cycle", "merge_pruned", "legacy_task", "tail_partial_batch", "tail_fragment", "tail_torn":
+		// these edit the log as an editor, a merge or a dying writer would: all
+		// of them start from a log that ends in a newline. After a tail that a
+		// crash left unterminated they would glue their bytes onto its last
+		// event, a file no crash and no merge produces: not applied then
+		if b, err := os.ReadFile(lp); err == nil && len(b) > 0 && b[len(b)-1] != '\n' {
+			r.Obs = nil
+			return
+		}
+	}
+	switch d.Kind {
 	case "lock_missing":
 		os.Remove(filepath.Join(dir, "lock"))
 		r.W.Count.Inc("fault.lock_missing")
